@@ -176,16 +176,17 @@ fn get_new_path<L: Locale>(
         if new_locale != L::default() {
             path_builder.push(new_locale.as_str());
         }
-        if let Some(path_rest) = path_name.strip_prefix(base_path) {
+        // the base path may be written "foo", "/foo", "foo/" or "/foo/" (see `I18nRoute`): compare it the way `get_locale_from_path` does
+        let base_path = base_path.trim_matches('/');
+        if let Some(path_rest) = path_name.trim_start_matches('/').strip_prefix(base_path) {
+            let path_rest = path_rest.trim_start_matches('/');
             let path_rest = match locale {
                 None => path_rest,
-                Some(l) => {
-                    if let Some(path_rest) = path_rest.strip_prefix(l.as_str()) {
-                        path_rest
-                    } else {
-                        path_rest // Should happen only if l == L::default()
-                    }
-                }
+                Some(l) => path_rest
+                    .strip_prefix(l.as_str())
+                    // the locale must be the whole first segment, not just a prefix of it ("/english" is not "en")
+                    .filter(|rest| rest.is_empty() || rest.starts_with('/'))
+                    .unwrap_or(path_rest), // Should happen only if l == L::default()
             };
 
             let old_locale_segments = segments.get(&locale.unwrap_or_default());
